@@ -55,7 +55,17 @@ struct AllocConfig {
   bool descending = false;    // serve requests from an arena at DEscending
                               // addresses (flips the relative order of objects
                               // allocated one after the other)
+  bool ascending = false;     // the same arena, ASCENDING addresses: the
+                              // simulator owns the layout instead of malloc
+                              // (whose relative order depends on what the
+                              // process allocated before, e.g. argv lengths)
 };
+
+// True when the build has no AddressSanitizer: then every environment of the
+// env engine uses the arena (with ASan the sanitizer's own allocator is kept for
+// two environments in three, for its redzones; its layout is size-class based
+// and does not depend on the process history the way glibc's does).
+bool AllocArenaEverywhere();
 
 // Start/stop a measured call. Begin resets stats and declared counts.
 void AllocBegin(const AllocConfig &cfg);
